@@ -3,13 +3,18 @@ package streams
 import (
 	"context"
 	"math/rand"
+	"time"
 
 	corev1 "k8s.io/api/core/v1"
 	metav1 "k8s.io/apimachinery/pkg/apis/meta/v1"
 	"k8s.io/apimachinery/pkg/types"
 	"sigs.k8s.io/controller-runtime/pkg/client"
 
+	"sigs.k8s.io/controller-runtime/pkg/reconcile"
+
 	edsv1 "github.com/DataDog/extendeddaemonset/api/v1alpha1"
+	ersctl "github.com/DataDog/extendeddaemonset/controllers/extendeddaemonsetreplicaset"
+	"github.com/DataDog/extendeddaemonset/controllers/extendeddaemonsetreplicaset/strategy"
 )
 
 // switchClient lets one reconciler instance be run against one world and then against another: the
@@ -72,4 +77,47 @@ func (s *staleGetClient) Get(ctx context.Context, key client.ObjectKey, obj clie
 		return nil
 	}
 	return s.Client.Get(ctx, key, obj, opts...)
+}
+
+// neighbourWarmup makes rec sync the active replica set of a neighbouring ExtendedDaemonSet — "bar" in
+// the namespace of the case, or one with the case's own name in "ns2" — against a scratch copy of the
+// world (same nodes, same settings).  The neighbour's pods exist on every node, stamped for the
+// neighbour's own node overrides.
+func neighbourWarmup(r *rand.Rand, rec *ersctl.Reconciler, sw *switchClient, objs []client.Object, now time.Time) {
+	ns, name := testNS, "bar"
+	if r.Intn(2) == 0 {
+		ns, name = "ns2", testEDS
+	}
+	var out []client.Object
+	var nodes []*corev1.Node
+	for _, o := range objs {
+		c := o.DeepCopyObject().(client.Object)
+		out = append(out, c)
+		if n, ok := c.(*corev1.Node); ok {
+			nodes = append(nodes, n)
+		}
+	}
+	eds := &edsv1.ExtendedDaemonSet{ObjectMeta: metav1.ObjectMeta{Name: name, Namespace: ns, UID: "uid-nb", Annotations: map[string]string{}}}
+	eds.Spec.Template = tplOf(1)
+	eds.Spec.Strategy = defaultedStrategy()
+	rs := newERS(name+"-a", tplOf(1), now.Add(-time.Hour))
+	rs.Namespace = ns
+	rs.Labels[edsv1.ExtendedDaemonSetNameLabelKey] = name
+	rs.OwnerReferences[0].Name = name
+	eds.Status.ActiveReplicaSet = rs.Name
+	out = append(out, eds, rs)
+	for k, n := range nodes {
+		p := buildPod(r, catUpToDateAvail, rs, rs, strategy.NewNodeItem(n, nil), now, 9000+k)
+		if p == nil {
+			continue
+		}
+		p.Namespace = ns
+		p.Name = "nb-" + p.Name
+		p.Labels[edsv1.ExtendedDaemonSetNameLabelKey] = name
+		out = append(out, p)
+	}
+	sw.use(loggingClient(out, &writeLog{}, nil))
+	Recovered(func() {
+		_, _ = rec.Reconcile(context.TODO(), reconcile.Request{NamespacedName: types.NamespacedName{Namespace: ns, Name: rs.Name}})
+	})
 }
